@@ -217,6 +217,9 @@ func Canon(ty string, v interface{}) []byte {
 	panic("unknown type " + ty)
 }
 
+// LateEntries selects the build order of group entries (see buildNode).
+var LateEntries bool
+
 // MakeValue builds the real value object for a leaf through the requested public route.
 func MakeValue(n *Node) (fix.Value, error) {
 	if !n.Pop {
@@ -297,7 +300,21 @@ func buildNode(n *Node, blank bool) (fix.Item, error) {
 				if err != nil {
 					return nil, err
 				}
-				g.AddEntry(items)
+				if LateEntries {
+					// the way generated code is used: the entry object (a Component) is added to the group first
+					// and populated afterwards through slot-replacing setters
+					blankItems, err := buildItems(e, true)
+					if err != nil {
+						return nil, err
+					}
+					entry := fix.NewComponent(blankItems...)
+					g.AddEntry(entry.Items())
+					for i, it := range items {
+						entry.Set(i, it)
+					}
+				} else {
+					g.AddEntry(items)
+				}
 			}
 		}
 		return g, nil
